@@ -289,6 +289,10 @@ impl HashId {
             Fam::Skein => format!("Skein{}-{}", self.bits, self.out),
         }
     }
+    /// family + block size, e.g. "Blake-bs64" (coverage-class prefix)
+    pub fn fam_name(&self) -> String {
+        format!("{:?}-bs{}", self.fam, self.block_size())
+    }
     pub fn parse(s: &str) -> HashId {
         let f = |p: &str, fam: Fam| -> Option<HashId> {
             s.strip_prefix(p).map(|r| {
